@@ -86,6 +86,7 @@ prop("C12", "c12",
      "Two hand-made scenarios every 40th case each: (a) a whole dispatcher with thread-local systems of its own registered as a thread-local system of another dispatcher (nested up to two deep; dispatch / dispatch_seq+dispatch_thread_local / RunNow::run_now): the flattened registration order on the calling thread, once per dispatch; (b) async: a thread-local system panics inside wait() (caught), then wait() again with or without a new dispatch(): every thread-local system runs, from the first one. "
      "Happens-before probe (thorough tier, decided by the race detectors): the same kind of plans run with systems that touch no atomic of the harness at all - each one reads, non-atomically, the plain cells of everything that must have finished before it (its dependencies, systems in front of an effective barrier, every ordinary system for a thread-local one, its own run in the previous dispatch; the caller reads all cells after dispatch / wait returned) and writes its own cell - under ThreadSanitizer and under Miri: an ordering that holds in time but lacks a happens-before edge (a latch built from relaxed atomics, say) is a data race there, while the event log - whose own atomic operations synchronise the threads it observes - cannot see it. "
      "(c) async: while a dispatch is in flight (one system parked) the caller calls setup / a second dispatch / world_mut / wait_without_tl: none of that runs a thread-local system, the wait() that follows runs each once. The event-log oracle also requires a thread-local pass to end before the next dispatch of the same dispatcher (the next inner dispatch of a batch) starts its systems. "
+     "An eighth of the dispatchers first go through a setup call in which the setup hook of one of their thread-local systems panics (caught); a dispatcher handed back by a refused try_into_sendable is identified again: same systems, same thread-local order. "
      "distinct non-trivial = (plan hash, driver) with >=1 thread-local window observed beside >=1 ordinary system.",
      thorough=[shards(name="main"), san("tsan", name="tsan-hb", sub="hb", args=["--tl"], scale=3.0), miri(rayon=True, name="miri-hb", sub="hb", args=["--tiny", "--tl"], scale=0.004)])
 
@@ -122,6 +123,7 @@ prop("C13", "c13",
      "Oracles: per-system setup counter == number of setup calls, dispose counter == 1 (any depth, thread-local included); world before/after against a reference (pre-existing values untouched, default-providing accessors create the default, Option/Expect create nothing). "
      "The thorough tier repeats a slice under AddressSanitizer + LeakSanitizer (dispose consumes the boxed systems, batches own an inner dispatcher behind an `unsafe impl Send`: a system that is neither disposed nor dropped is a leak, one handed out twice a double free) and a few dozen cases under Miri. "
      "A tenth of the setup calls and a sixth of the dispose calls are made from a destructor during unwinding; a third of the async cases call setup a second time *while a dispatch is in flight* (one system parked, a helper lets it go once the caller is about to block). "
+     "A sixth of the histories contain a setup call in which one system's own setup hook panics (caught; counters are re-based): the next setup call and dispose still reach everything - also on the async dispatcher. "
      "distinct non-trivial = (plan hash, initial-world density) with a batch member or thread-local system and >=1 pre-existing resource.",
      thorough=[shards(name="main"), san("asan", name="asan", scale=0.05), miri(rayon=True, name="miri", scale=0.0001)])
 
@@ -159,6 +161,7 @@ prop("C15", "c15",
      "Long histories (4 per shard): running() is polled until false once, then 254..256 / 65534..65536 frames of dispatch + wait / wait_without_tl / world, then one more dispatch in which a system is parked inside run while running() is polled 3..30 times (must be true), then wait. "
      "Happens-before probe (thorough tier, decided by the race detectors): the same kind of plans run with systems that touch no atomic of the harness at all - each one reads, non-atomically, the plain cells of everything that must have finished before it (its dependencies, systems in front of an effective barrier, every ordinary system for a thread-local one, its own run in the previous dispatch; the caller reads all cells after dispatch / wait returned) and writes its own cell - under ThreadSanitizer and under Miri: an ordering that holds in time but lacks a happens-before edge (a latch built from relaxed atomics, say) is a data race there, while the event log - whose own atomic operations synchronise the threads it observes - cannot see it. "
      "Every 6th history (pools of 4+ threads) is driven by a worker of the dispatcher's own pool (built, used and dropped inside pool.install). "
+     "One history in 97 keeps the parked system parked for 700 ms while the caller is blocked in the accessor. "
      "distinct non-trivial = (plan, history) with >=1 poll of running() on a parked system and >=2 dispatches.",
      thorough=[shards(name="main"), san("tsan", name="tsan", scale=0.25), san("tsan", name="tsan-hb", sub="hb", args=["--async"], scale=3.0), miri(rayon=True, name="miri-hb", sub="hb", args=["--tiny", "--async"], scale=0.004)])
 
